@@ -12,6 +12,8 @@ import (
 	"net/http/httptest"
 	"os"
 	"path/filepath"
+	"runtime"
+	"strings"
 	"sync/atomic"
 	"testing"
 	"time"
@@ -109,14 +111,42 @@ func TestVerifC05RunExported(t *testing.T) {
 			res.err = Run(RunConfig{TelemetryDir: dir, UploadURL: srv.URL, Env: env, StartTime: start, LogWriter: io.Discard})
 		}()
 		desc := fmt.Sprintf("mode=%q status=%d strays=%v", mode, status, strays)
-		select {
-		case res := <-done:
+		finish := func(res result) {
 			if res.panic != nil {
 				t.Fatalf("%s: a panic escaped upload.Run: %v", desc, res.panic)
 			}
 			vstats.Case(desc, len(strays) > 0, fmt.Sprintf("err:%v", res.err != nil), fmt.Sprintf("requests:%d", min(int(c05rRequests.Load()), 3)))
+		}
+		select {
+		case res := <-done:
+			finish(res)
 		case <-time.After(60 * time.Second):
-			t.Fatalf("%s: upload.Run did not return within 60 s", desc)
+			// A goroutine that sits blocked (on a lock, a channel, a request) after a minute hangs. One that is
+			// still executing gets four more minutes: a slow, loaded machine is not a violation.
+			st := c05rStackOfRun()
+			if head, _, _ := strings.Cut(st, "\n"); strings.Contains(head, "[running") || strings.Contains(head, "[runnable") {
+				select {
+				case res := <-done:
+					vstats.Label("runSlowButReturned")
+					finish(res)
+					return
+				case <-time.After(240 * time.Second):
+					st = c05rStackOfRun()
+				}
+			}
+			t.Fatalf("%s: upload.Run did not return within 60 s; its goroutine:\n%s", desc, st)
 		}
 	})
+}
+
+// c05rStackOfRun returns the stack dump of the goroutine that is inside upload.Run ("" if there is none).
+func c05rStackOfRun() string {
+	buf := make([]byte, 4<<20)
+	buf = buf[:runtime.Stack(buf, true)]
+	for _, g := range strings.Split(string(buf), "\n\n") {
+		if strings.Contains(g, "internal/upload.Run(") {
+			return g
+		}
+	}
+	return ""
 }
